@@ -57,6 +57,8 @@ type Prop struct {
 	Extra func(st *Stats) (violation string, c any)
 	// Exhaustive marks evidence as exhaustive over a finite domain (C15 enumerated part)
 	Exhaustive bool
+	// RaceWorker: the check needs the child-process worker built with the race detector
+	RaceWorker bool
 }
 
 var registry = map[string]*Prop{}
